@@ -111,6 +111,13 @@ func (g *c02Gen) symbolName() string {
 	for i := 1; i < n; i++ {
 		sb.WriteByte(c02SymChars[g.rng.Intn(len(c02SymChars))])
 	}
+	if g.rng.Chance(8) {
+		// non-ASCII token characters (U+212A and U+0130, which lower-case to ASCII letters, are left out)
+		sb.WriteString([]string{"é", "λ", "日本", "😀", "Ω", "ß"}[g.rng.Intn(6)])
+		if g.rng.Bool() {
+			sb.WriteByte(c02SymChars[g.rng.Intn(len(c02SymChars))])
+		}
+	}
 	s := sb.String()
 	if s == "t" || s == "T" || strings.EqualFold(s, "nil") {
 		return s + "x"
@@ -236,7 +243,7 @@ func (g *c02Gen) atom() {
 		g.needSep = false
 	case r < 76:
 		names := []string{"a", "Z", "0", "#", "|", "~", "Space", "space", "NEWLINE", "Tab", "Backspace", "Rubout", "Page", "Return",
-			"u0041", "U3bb", "u1F600", "é", "λ", "😀", "ab", "u00e9"}
+			"u0041", "U3bb", "u1F600", "é", "λ", "😀", "ab", "u00e9", "(", ")", ";", "\"", "'", " ", "\\", ",", "`", "(a", " x", "\n"}
 		g.tok("#\\"+names[g.rng.Intn(len(names))], "character", 2, false)
 		g.needSep = true
 	case r < 83:
@@ -251,6 +258,15 @@ func (g *c02Gen) atom() {
 			b := 2 + g.rng.Intn(35)
 			p := fmt.Sprintf("#%d%s", b, string("rR"[g.rng.Intn(2)]))
 			g.tok(p+g.sign()+g.digits(1+g.rng.Intn(6), b), "radix-int", len(p), false)
+		}
+		if g.rng.Chance(12) {
+			// a ratio behind the radix prefix: #b1/11 #16r-a/f (the token just emitted gets a denominator)
+			den := g.digits(1+g.rng.Intn(3), 2)
+			if g.rng.Chance(15) {
+				den = "0"
+			}
+			g.raw("/" + g.sign() + den)
+			g.inner[len(g.buf)-len(den)-1] = true
 		}
 		g.needSep = true
 	case r < 87:
@@ -583,6 +599,12 @@ func c02SweepTexts() []*c02Text {
 		{"char-utf8", "#\\é #\\😀 ", true},
 		{"char-sharp", "#\\# #\\| ", true},
 		{"char-in-list", "(#\\a)", true},
+		{"char-any-first", "#\\( #\\) #\\; #\\\" #\\' #\\, ", true},
+		{"char-space", "(#\\  #\\\n a)", true},
+		{"char-first-then-more", "#\\(a #\\ x ", true},
+		{"radix-ratio", "#b1/11 #x-a/F #o7/-1 #3r1/0 #16r1/2/3 #x/2 ", true},
+		{"symbol-non-ascii", "héllo λ 日本x é1 ", true},
+		{"pipe-escaped-bar", "|a\\|b\\\\c| x", true},
 		{"binary", "#b1011 #B-11 ", true},
 		{"octal", "#o777 ", true},
 		{"hex", "#xDeadBeef #x-ff ", true},
